@@ -1969,6 +1969,172 @@ class FlipScale(K):
         return cfg["flip"] != "none"
 
 
+class FlipScaleRL(K):
+    """real-linear operators (Realizer, ConjugationOperator, PartialConjugate) chained with COMPLEX
+    scalings on either side, plain and flipped: a complex factor does not commute with a real-linear
+    operator, so construction-time simplification must leave it where it is.  Reference in the real
+    (re/im interleaved) form: R_c R_f for ScalingOperator(c) @ f and c*f, R_f R_c for f @ ScalingOperator(c)."""
+    name = "real-linear operator chained with complex scalings"
+    real_linear = True
+    tol = 1e-12
+    quick_n, thorough_n = 40, 400
+    CS = [[0.0, 1.0], [1.0, 1.0], [0.5, -2.0], [2.0, 0.0], [-1.0, 0.0], [0.0, -0.5]]
+
+    def gen(self, rng):
+        base = ["Realizer", "ConjugationOperator", "ConjugationOperator", "PartialConjugate"][int(rng.integers(4))]
+        cfg = BY_NAME[base].gen(rng)
+        nsc = int(rng.integers(1, 4))
+        # positions: scalings to the left (applied after) and to the right (applied before) of the operator
+        left = [self.CS[int(rng.integers(len(self.CS)))] for _ in range(int(rng.integers(0, nsc + 1)))]
+        right = [self.CS[int(rng.integers(len(self.CS)))] for _ in range(nsc - len(left))]
+        return {"base": base, "cfg": cfg, "left": left, "right": right,
+                "flip": ["none", "none", "adjoint", "inverse"][int(rng.integers(4))],
+                "how": ["matmul", "scale"][int(rng.integers(2))]}
+
+    def build(self, ift, c):
+        f = BY_NAME[c["base"]].build(ift, c["cfg"])
+        if c["flip"] == "adjoint":
+            f = f.adjoint
+        elif c["flip"] == "inverse" and c["base"] != "Realizer":
+            f = f.inverse
+        op = f
+
+        def num(z_):        # a scalar with zero imaginary part is passed as a float
+            return complex(*z_) if z_[1] else float(z_[0])
+        for z_ in c["right"]:
+            op = op @ ift.ScalingOperator(op.domain, num(z_))
+        for z_ in c["left"]:
+            zc = num(z_)
+            op = op.scale(zc) if c["how"] == "scale" else ift.ScalingOperator(op.target, zc) @ op
+        return op
+
+    def ref(self, c):
+        Rf = np.asarray(BY_NAME[c["base"]].ref(c["cfg"]), dtype=float)
+        if c["flip"] == "adjoint":
+            Rf = Rf.T
+        elif c["flip"] == "inverse" and c["base"] != "Realizer":
+            Rf = np.linalg.inv(Rf)       # conjugations are involutions with entries +-1: exact
+        n = Rf.shape[0] // 2
+        R = Rf
+        for z_ in c["right"]:
+            R = R @ rform(complex(*z_) * np.eye(n))
+        for z_ in c["left"]:
+            R = rform(complex(*z_) * np.eye(n)) @ R
+        return R
+
+    def inv_ref(self, c):
+        if c["base"] == "Realizer":
+            return None
+        return np.linalg.inv(self.ref(c))
+
+    def nontrivial(self, c):
+        return any(z_[1] != 0 for z_ in c["left"] + c["right"])
+
+
+class SignedSum(K):
+    """signed sums and differences of endomorphic operators on one domain (several DiagonalOperators with
+    equal and different sampling dtypes, scalings, a matrix, an FFT shift), built with +, - and unary
+    minus in random grouping, against the signed sum of the documented matrices"""
+    name = "signed sum of operators"
+    tol = 1e-12
+    quick_n, thorough_n = 80, 800
+
+    def gen(self, rng):
+        d = gen_dom(rng, 1, 2, kinds=("RG",), maxsize=8)
+        n = dsize(d)
+        nt = int(rng.integers(2, 6))
+        terms = []
+        for _ in range(nt):
+            r = int(rng.integers(8))
+            if r <= 4:
+                cplx = bool(rng.integers(4) == 0)
+                src = [v for v in (CVALS if cplx else RVALS) if v != 0]
+                terms.append(["diag", jc([src[int(rng.integers(len(src)))] for _ in range(n)]), cplx,
+                              [None, None, "f", "c"][int(rng.integers(4))]])
+            elif r == 5:
+                terms.append(["scal", jc([CVALS[int(rng.integers(len(CVALS) - 1))]])[0], [None, "f"][int(rng.integers(2))]])
+            elif r == 6:
+                terms.append(["matrix", [[float(rng.integers(-2, 3)) for _ in range(n)] for _ in range(n)]])
+            else:
+                terms.append(["fftshift"])
+        signs = [bool(rng.integers(2)) for _ in range(nt)]          # True = subtracted
+        # grouping: a split point k: (t0 .. tk-1) combined with (tk ..) by + or -; 0 = purely left-associative
+        return {"dom": d, "terms": terms, "neg": signs, "split": int(rng.integers(0, nt)), "outer_neg": bool(rng.integers(2)),
+                "lead_neg": bool(rng.integers(2))}
+
+    def term(self, ift, d, t):
+        dt = {None: None, "f": np.float64, "c": np.complex128}
+        if t[0] == "diag":
+            v = np.array(uc(t[1]))
+            if not t[2]:
+                v = v.real
+            return ift.DiagonalOperator(ift.Field.from_raw(d, v.reshape(d.shape)), sampling_dtype=dt[t[3]])
+        if t[0] == "scal":
+            f = complex(*t[1])
+            return ift.ScalingOperator(d, f if f.imag else f.real, dt[t[2]])
+        if t[0] == "matrix":
+            return ift.MatrixProductOperator(d, np.array(t[1], dtype=float), flatten=True)
+        return ift.FFTShiftOperator(d)
+
+    def tmat(self, c, t):
+        n = dsize(c["dom"])
+        if t[0] == "diag":
+            return np.diag(np.array(uc(t[1])))
+        if t[0] == "scal":
+            return complex(*t[1]) * np.eye(n)
+        if t[0] == "matrix":
+            return np.array(t[1], dtype=complex)
+        return np.asarray(FFTShift().ref({"dom": c["dom"], "spaces": None}), dtype=complex)
+
+    def group(self, c):
+        """[(indices, signs)] of the one or two groups"""
+        nt = len(c["terms"])
+        k = c["split"]
+        if k == 0:
+            return [list(range(nt))]
+        return [list(range(k)), list(range(k, nt))]
+
+    def build(self, ift, c):
+        d = mk_dom(ift, c["dom"])
+        ops = [self.term(ift, d, t) for t in c["terms"]]
+
+        def comb(idx, lead_neg):
+            r = -ops[idx[0]] if (c["neg"][idx[0]] and lead_neg) else ops[idx[0]]
+            for i in idx[1:]:
+                r = (r - ops[i]) if c["neg"][i] else (r + ops[i])
+            return r
+        gs = self.group(c)
+        r = comb(gs[0], c["lead_neg"])
+        if len(gs) == 2:
+            g2 = comb(gs[1], c["lead_neg"])
+            r = (r - g2) if c["outer_neg"] else (r + g2)
+        return r
+
+    def ref(self, c):
+        mats = [self.tmat(c, t) for t in c["terms"]]
+
+        def comb(idx, lead_neg):
+            r = -mats[idx[0]] if (c["neg"][idx[0]] and lead_neg) else mats[idx[0]].copy()
+            for i in idx[1:]:
+                r = r - mats[i] if c["neg"][i] else r + mats[i]
+            return r
+        gs = self.group(c)
+        r = comb(gs[0], c["lead_neg"])
+        if len(gs) == 2:
+            g2 = comb(gs[1], c["lead_neg"])
+            r = r - g2 if c["outer_neg"] else r + g2
+        return r
+
+    def inv_ref(self, c):
+        M = self.ref(c)
+        if np.linalg.cond(M) > 1e3:
+            return None
+        return np.linalg.inv(M)
+
+    def nontrivial(self, c):
+        return sum(1 for t in c["terms"] if t[0] == "diag") >= 2 and any(c["neg"])
+
+
 class LOSO(K):
     """LOSResponse (sigmas=None): the line integral of the piecewise constant field along each line of
     sight; pixel i of an axis covers [(i-1/2) d, (i+1/2) d].  Reference: exact clipping of the segment
@@ -2056,6 +2222,6 @@ MODELLED = [Contraction(), DOFDist(), PowerDist(), Padder(), Mask(), Slice(), Sp
             Realizer(), Imaginizer(), Conjugation(), FieldAdapterK(), PartialExtractorK(), PrependKeyK(), MF2Vec()]
 ORACLE_ONLY = [ScalingO(), DiagonalO(), NullO(), EinsumO(), HarmonicO(), SHTO(), SmoothO(), FuncConvO(), SandwichO(), BlockDiagO(),
                PartialConjO(), SlopeRemoverO(), TwoLogO(), CFDistributorO(), LowerTriO(), DiagSelO(), AdapterO(),
-               FlipScale(), LOSO()]
+               FlipScale(), LOSO(), FlipScaleRL(), SignedSum()]
 ALL = MODELLED + ORACLE_ONLY
 BY_NAME = {k.name: k for k in ALL}
